@@ -172,8 +172,37 @@ def bait_case(rng, kind, alg=None):
                     "shrink": shrink, "seed": rng.randrange(1 << 30)}}
 
 
+def corner_case(rng, cones=None):
+    """Over-optimistic region domination on acute cones (VOGP): victim 0 is ε-isolated (the witness 1 plus the
+    slack lies just outside `μ_0 + C`), its box hangs below the truth so that the witness pessimistically
+    dominates it (victim ∉ pessimistic set, witness ∈), boxes anisotropic; corner-to-corner dominance with the
+    slack holds although some cross pair of vertices fails.  `c01.corner_pair` does the rejection sampling."""
+    for _ in range(20):
+        cname = rng.choice(cones or c01.CORNER_CONES_ANY)
+        W = c01.acute_cone(cname)
+        m = len(W[0])
+        eps = rng.choice([0.1, 0.05, 0.25])
+        s = eps * ustar_estimate(W)
+        got = c01.corner_pair(rng, W, s, want_pess=True)
+        if got is None:
+            continue
+        Y, off, half = got
+        n = len(Y)
+        tiny = [[2.0 ** -7] * m for _ in range(n)]
+        return {"kind": "run", "alg": "VOGP", "cone": cname, "W": W, "shape": "acute-corner", "Y": Y, "eps": eps,
+                "delta": 0.05, "noise_var": 0.01, "conf": rng.choice([32, 9]), "batch": 1,
+                "adv": {"mode": "boxes", "frac": 1.0, "sd0": [[1.0] * m] * n, "shrink": [0.5] * n,
+                        "seed": rng.randrange(1 << 30), "tail_shrink": 0.5,
+                        "history": [[off, half], [[[0.0] * m] * n, tiny]]}}
+    return None
+
+
 def gen(ctx):
     rng = ctx.rng
+    for _ in range(ctx.n(8, 160)):
+        c = corner_case(rng)
+        if c is not None:
+            yield c
     for alg in ALGS:
         for kind in ("discard", "cover"):
             for _ in range(2 if ctx.tier == "quick" else 6):
